@@ -765,7 +765,8 @@ void Circuit::removeIrrelevantMuxes(Subnet &subnet)
 							}
 
 							if (Node_Multiplexer *subnetOutputMuxNode = dynamic_cast<Node_Multiplexer*>(input.node)) {
-								if (subnetOutputMuxNode->getNumInputPorts() == 3) {
+								// only data inputs count: reaching the selector (port 0) of a later mux does not mask anything
+								if (subnetOutputMuxNode->getNumInputPorts() == 3 && input.port != 0 && hasBooleanSelector(subnetOutputMuxNode)) {
 									Conjunction subnetOutputMuxNodeCondition;
 									subnetOutputMuxNodeCondition.parseInput({.node = subnetOutputMuxNode, .port = 0});
 
